@@ -159,7 +159,7 @@ func execOp(op string) (out string) {
 	switch args[0] {
 	case "fen", "gen", "attby", "mv", "mvs", "play", "null", "perft", "att", "magic":
 		return execChess(args)
-	case "search", "judge":
+	case "search", "judge", "deep":
 		return execSearch(args)
 	case "hashdiff", "ecache", "dialog", "timed":
 		return execMore(args)
